@@ -162,11 +162,12 @@ package core
 // eventloop.write (C01, C10, C19): on a writable socket the front of the outbound buffer (what Peek hands out, at most
 // iovMax slices of it) goes to the kernel, and exactly the number of bytes the kernel accepted is dropped from the front.
 //@ func eventloop.write
-//@   props C01 C10 C19
+//@   props C01 C09 C10 C19
 //@   requires c != nil && c.opened && connok(el, c) && !elastic.mempty(obuf(c))
 //@   label CW at call eventloop.closeConn#0
 //@   assert[drain.batch@C01,C10,C19] at call Writev#0 :: len(arg1) >= 1 && len(arg1) <= 1024
 //@   assert[drain.exact@C01,C10,C19] at call Buffer.Discard#0 :: arg1 == n
+//@   assert[interest@C01,C09,C10,C19] at call Poller.ModRead#0 :: elastic.mempty(obuf(c))
 //@   assume at call eventloop.closeConn#0 :: connok(el, c)
 //@   ensures[drain.count@C01,C10,C19] !reached(CW) ==> elastic.mtotal(obuf(c)) == old(elastic.mtotal(obuf(c))) - imin(imax(n, 0), old(elastic.mtotal(obuf(c))))
 //@   ensures[drain.wf] !reached(CW) ==> elastic.mwf(obuf(c))
